@@ -41,6 +41,8 @@ package util
 //@ nomod
 //@ prop C16
 //@ ensures[never-in-direct-mode] !ret(IsProxied) ==> !result
+//@ prop C16 C06
+//@ ensures[forwarded-means-proxied-under-another-host] result <==> ret(IsProxied) && called(GetRequestHost) && req.Host != ret(GetRequestHost)
 
 // every read of a forwarding / real-client-IP header in the whole repository happens in one of these functions
 //@ prop C16
